@@ -53,22 +53,22 @@ var c07Related = map[int]int{1: 7, 7: 1, 2: 8, 8: 2}
 var c07InvalidCfg = cors.Config{Origins: []string{"https://common.example", "https://bad origin"}, Methods: []string{"EVIL"}, MaxAgeInSeconds: 909, ExtraConfig: cors.ExtraConfig{PreflightSuccessStatus: 299}}
 
 var c07ReqKinds = []Req{
-	buildReq("GET", nil, nil, nil, nil, nil),                                                                 // 0 non-CORS GET
-	actualReq("GET", "https://common.example"),                                                               // 1 actual GET, origin allowed everywhere
-	actualReq("GET", "https://one.example"),                                                                  // 2 actual GET, origin allowed by some
-	actualReq("OPTIONS", "https://common.example"),                                                           // 3 actual OPTIONS
-	preflightReq("https://common.example", "GET", nil, false),                                                // 4 succeeding preflight
-	preflightReq("https://never.invalid.test", "GET", nil, false),                                            // 5 preflight failing at the origin step (except allow-all)
-	preflightReq("https://common.example", "GET", nil, true),                                                 // 6 preflight failing at the PNA step where PNA is off
-	preflightReq("https://common.example", "UNLISTED", nil, false),                                           // 7 preflight failing at the method step
-	preflightReq("https://common.example", "GET", []string{"x-unlisted"}, false),                             // 8 preflight failing at the header step
-	preflightReq("https://common.example", "PUT", []string{"x-one"}, false),                                  // 9 preflight succeeding for configurations 1 and 7 only
-	actualReq("GET", "https://sub.one.example"),                                                              // 10 actual GET, origin allowed by configuration 7 only (appended pattern)
-	preflightReq("https://sub.one.example", "MOVE", []string{"x-seven"}, false),                              // 11 preflight succeeding for configuration 7 only
-	preflightReq("https://two.example:8443", "PATCH", []string{"authorization"}, false),                      // 12 preflight succeeding for configuration 2 only (pattern dropped by 8)
-	actualReq("POST", "https://a.two.example"),                                                               // 13 actual POST, origin allowed by 2 and 8
-	preflightReq("https://common.example", "PUT", []string{"x-one", "x-unlisted"}, false),                    // 14 two ACRH lines, the first equal to kind 9's only line: fails everywhere
-	preflightReq("https://common.example", "PUT", []string{"x-one", "x-one"}, false),                         // 15 repeated line: fails everywhere (not strictly increasing)
+	buildReq("GET", nil, nil, nil, nil, nil),                                              // 0 non-CORS GET
+	actualReq("GET", "https://common.example"),                                            // 1 actual GET, origin allowed everywhere
+	actualReq("GET", "https://one.example"),                                               // 2 actual GET, origin allowed by some
+	actualReq("OPTIONS", "https://common.example"),                                        // 3 actual OPTIONS
+	preflightReq("https://common.example", "GET", nil, false),                             // 4 succeeding preflight
+	preflightReq("https://never.invalid.test", "GET", nil, false),                         // 5 preflight failing at the origin step (except allow-all)
+	preflightReq("https://common.example", "GET", nil, true),                              // 6 preflight failing at the PNA step where PNA is off
+	preflightReq("https://common.example", "UNLISTED", nil, false),                        // 7 preflight failing at the method step
+	preflightReq("https://common.example", "GET", []string{"x-unlisted"}, false),          // 8 preflight failing at the header step
+	preflightReq("https://common.example", "PUT", []string{"x-one"}, false),               // 9 preflight succeeding for configurations 1 and 7 only
+	actualReq("GET", "https://sub.one.example"),                                           // 10 actual GET, origin allowed by configuration 7 only (appended pattern)
+	preflightReq("https://sub.one.example", "MOVE", []string{"x-seven"}, false),           // 11 preflight succeeding for configuration 7 only
+	preflightReq("https://two.example:8443", "PATCH", []string{"authorization"}, false),   // 12 preflight succeeding for configuration 2 only (pattern dropped by 8)
+	actualReq("POST", "https://a.two.example"),                                            // 13 actual POST, origin allowed by 2 and 8
+	preflightReq("https://common.example", "PUT", []string{"x-one", "x-unlisted"}, false), // 14 two ACRH lines, the first equal to kind 9's only line: fails everywhere
+	preflightReq("https://common.example", "PUT", []string{"x-one", "x-one"}, false),      // 15 repeated line: fails everywhere (not strictly increasing)
 }
 
 // operations run sequentially after every injected mini-history
@@ -362,14 +362,14 @@ func c07ToPorcupine(init c07State, recs []c07Rec) []porcupine.Operation {
 }
 
 type c07Case struct {
-	Monitor string    `json:"monitor"`
-	Init    c07State  `json:"initial_state"`
-	Outer   *c07Op    `json:"outer,omitempty"`
-	Inner   []c07Op   `json:"inner,omitempty"`
-	Point   int       `json:"point,omitempty"`
-	Where   string    `json:"where,omitempty"`
-	History []c07Rec  `json:"history"`
-	Legal   []string  `json:"legal_outputs_of_outer,omitempty"`
+	Monitor string   `json:"monitor"`
+	Init    c07State `json:"initial_state"`
+	Outer   *c07Op   `json:"outer,omitempty"`
+	Inner   []c07Op  `json:"inner,omitempty"`
+	Point   int      `json:"point,omitempty"`
+	Where   string   `json:"where,omitempty"`
+	History []c07Rec `json:"history"`
+	Legal   []string `json:"legal_outputs_of_outer,omitempty"`
 }
 
 // ---------------------------------------------------------------------------
@@ -600,8 +600,8 @@ func c07StressHistory(r *Run, l *Local, g *c07Golden, model porcupine.Model, rng
 	sort.Slice(all, func(i, j int) bool { return all[i].Call < all[j].Call })
 	h := fnv.New64a()
 	type ev struct {
-		t    int64
-		s    string
+		t int64
+		s string
 	}
 	var evs []ev
 	var writers []c07Rec
